@@ -10,11 +10,14 @@ from ..astutil import (ERROR_CLASSES, ERROR_ONLY_HELPERS, Locals, call_name, cfg
 from ..cfg import CFG, EXIT, walk_own
 from ..core import Report
 from ..pyindex import FuncInfo, dotted
+from . import inplace
 
 LEVEL = ("containment mechanisms only (byte equality of two trees is a relation between runs and is not decided): dependency "
          "recording on every successful path and roots forwarded to every recursive build; removal closed over recorded "
          "dependants; the threaded Schemas/Parameters state is only rebound from the result of a step that received it (no stale "
-         "snapshot); an item's failure continues the loop, never ends it; the registry does not alias the caller's roots set.")
+         "snapshot); an item's failure continues the loop, never ends it; the registry does not alias the caller's roots set; the "
+         "registries are written in place only by the frozen table of legitimate writers (everything else registers on an evolved "
+         "copy); document-named output directories are rebuilt from empty.")
 
 CONTAIN_LOOPS = {
     "parser.openapi.EndpointCollection.from_data", "parser.openapi.Endpoint._add_responses", "parser.bodies.body_from_data",
@@ -44,6 +47,9 @@ def run(rep: Report, ctx: Any) -> str:
                       "(removal pops the name from classes_by_name: a class shared by name would be taken from its other users)")
     rep.rule("R08.7", "document validation is one all-or-nothing step, so no validator of a piece-level document model raises: a piece the "
                       "parser contains must not be turned into a failure of the whole document before the parser sees it")
+    rep.rule("R08.10", "nothing stale remains: what this run omits (a failed piece and its dependants) does not survive from an earlier run in "
+                       "the same output directory - every directory that receives modules named after the document is removed earlier in "
+                       "the run, on every path that reaches the write (a leftover endpoint module imports model modules this run removed)")
     rep.rule("R08.8", "the product of a fallible, state-threading build step made for an item is never dropped: from the step, every way "
                       "to the end of the iteration hands the product (or its error) on - a piece that does not contribute is skipped "
                       "before it is built, so it can neither fail its container nor leave classes behind (which results of the step are "
@@ -179,8 +185,50 @@ def run(rep: Report, ctx: Any) -> str:
     _exclusive_dependants(rep, ix, cfgs)
     _piece_validators_do_not_raise(rep, ix)
     _products_not_dropped(rep, ix, cfgs)
+    # ---- R08.9: who may write the registries in place (stated once, in inplace.py, for C08 / C12 / C20) ---------------------------
+    inplace.check(rep, ctx, "R08.9")
+    # ---- R08.10: what this run omits does not survive from an earlier run ------------------------------------------------------------
+    _nothing_stale_remains(rep, ctx)
     rep.not_decided += ["byte equality of the output trees with and without the bad piece"]
     return LEVEL
+
+
+class _Under:
+    """A Report seen through another rule id: lets this property state, under its own id, a rule that another property's module
+    already states generally (one statement of the rule, one implementation)."""
+
+    def __init__(self, rep: Report, rid: str) -> None:
+        self._rep = rep
+        self._rid = rid
+
+    def check(self, cond: bool, rule: str, construct: str, message: str, where: str = "", lhs: Any = None, rhs: Any = None, **facts: Any) -> bool:
+        return self._rep.check(cond, self._rid, construct, message, where, lhs, rhs, **facts)
+
+    def ok(self, rule: str, construct: str, lhs: Any = None, rhs: Any = None, nontrivial: bool = True) -> None:
+        self._rep.ok(self._rid, construct, lhs, rhs, nontrivial)
+
+    def fail(self, rule: str, construct: str, message: str, where: str = "", lhs: Any = None, rhs: Any = None, **facts: Any) -> None:
+        self._rep.fail(self._rid, construct, message, where, lhs, rhs, **facts)
+
+    def rule(self, rid: str, text: str) -> None:
+        self._rep.rule(self._rid, text)
+
+    def __getattr__(self, name: str) -> Any:
+        return getattr(self._rep, name)
+
+
+def _nothing_stale_remains(rep: Report, ctx: Any) -> None:
+    """The pieces a run omits must not be in the output tree afterwards either - also when the tree held an earlier generation (the
+    documented update workflow: regenerate in place after the document changed).  A module of an endpoint that is now omitted, left
+    over from the earlier run, imports model modules that this run removed.  The structural necessary condition is the one C01 states
+    as R01.9 - every directory that receives entries named after the document is removed earlier in the run on every path that reaches
+    the write (paths are the abstract interpreter's values, effects are followed through helpers) - so it is evaluated by that rule's
+    own implementation and reported here under this property's id."""
+    from . import c01
+
+    rule = getattr(c01, "_rebuilt_from_empty", None)
+    rep.require(callable(rule), "the no-stale-module rule of C01 (c01._rebuilt_from_empty), which R08.10 evaluates")
+    rule(_Under(rep, "R08.10"), ctx)
 
 
 def check_no_alias(rep: Report, ctx: Any, rid: str) -> None:
@@ -201,9 +249,12 @@ def check_no_alias(rep: Report, ctx: Any, rid: str) -> None:
 
 
 def _takes(v: ast.expr, names: set[str]) -> bool:
-    """v is a call (or a tuple/await of it) that receives one of `names` as an argument, or evolve(<name>, ...)"""
+    """v is a call (or a tuple/await of it) that receives one of `names` as an argument - or as the object whose method is called -, or
+    evolve(<name>, ...)"""
     if isinstance(v, ast.Call):
         args = [a for a in v.args] + [k.value for k in v.keywords]
+        if isinstance(v.func, ast.Attribute) and isinstance(v.func.value, ast.Name) and v.func.value.id in names:
+            return True   # <state>.method(...): the method receives the state as self
         for a in args:
             if isinstance(a, ast.Name) and a.id in names:
                 return True
